@@ -5,11 +5,11 @@
 set -u
 SEED="$1"; OUT="$2"; shift 2; XFLAGS="$*"
 mkdir -p /tmp/confirm
-exec 9>/tmp/confirm/lock
-flock 9            # one confirmation at a time: they share the scratch worktree and its build directory
+WT=${CONFIRM_WT:-/tmp/confirm/wt}
+exec 9>/tmp/confirm/lock_$(echo "$WT" | tr / _)
+flock 9            # one confirmation at a time per scratch worktree (CONFIRM_WT selects another one, e.g. the author's)
 T=/tmp/confirm/run_$$
 mkdir -p $T
-WT=/tmp/confirm/wt
 if [ ! -d "$WT" ]; then git -C /repo worktree add --detach "$WT" HEAD >/dev/null 2>&1; fi
 cd "$WT" && git checkout -q -- . && git checkout -q --detach "$(git -C /repo rev-parse HEAD)"
 [ -d _build ] || cmake -G Ninja -B _build -DBUILD_TESTS=ON -DCMAKE_BUILD_TYPE=RelWithDebInfo -DCMAKE_CXX_FLAGS=-Wno-error >/dev/null 2>&1
@@ -19,8 +19,8 @@ timeout 600 $T/demo_clean >$T/demo_clean.out 2>&1; R0=$?
 git apply "$SEED/patch.diff"; AP=$?
 g++ -std=gnu++20 -O1 -pthread $XFLAGS $INC "$SEED/demo.cpp" -o $T/demo_patched 2>$T/demo_patched.err; C1=$?
 timeout 600 $T/demo_patched >$T/demo_patched.out 2>&1; R1=$?
-cmake --build _build -j16 >$T/build.log 2>&1; B=$?
-ctest --test-dir _build -j16 --timeout 900 >$T/ctest.log 2>&1; CT=$?
+cmake --build _build -j${CONFIRM_JOBS:-16} >$T/build.log 2>&1; B=$?
+ctest --test-dir _build -j${CONFIRM_JOBS:-16} --timeout 900 >$T/ctest.log 2>&1; CT=$?
 SUMMARY=$(grep -E "tests passed|tests failed" $T/ctest.log | tail -1)
 git checkout -q -- .
 python3 - "$OUT" <<PY
